@@ -78,6 +78,17 @@ def containers(rng, pk, grid, thorough, keys=b""):
             out.append((f"pcapng-{tag}-dsb-behind-idb-junk", ns.pcapng(with_junk(rng, [("dsb", keys)] + list(pk), e, 2), le=le, tsresol=rng.choice([None, 9])), False, True))
             out.append((f"pcapng-{tag}-dsb-before-idb", ns.pcapng(pk, le=le, tsoffset=rng.choice([None, off]),
                                                                  pre_idb=[("raw",) + junk_block(rng, e, allow_idb=False)] * rng.randrange(0, 2) + [("dsb", keys)]), False, True))
+        # several interfaces (dumpcap -i a -i b, mergecap): resolution and offset are options of each interface, and a packet's timestamp is in the units of its own
+        res_ok = [None, 6, 9] + ([3] if grid % 1000 == 0 else []) + ([0x80 | 20, 0x80 | 6] if grid % 15625 == 0 else [])
+        ifs = [(rng.choice(res_ok), rng.choice([None, None, off])) for _ in range(rng.choice([2, 2, 3]))]
+        if len({i[0] or 6 for i in ifs}) == 1 and len({i[1] or 0 for i in ifs}) == 1:
+            ifs[1] = (9 if (ifs[0][0] or 6) == 6 else None, ifs[1][1])          # at least two interfaces that differ
+        how = rng.choice(["alternate", "by-direction", "second-half", "random"])
+        pick = {"alternate": lambda n: n, "second-half": lambda n, m=len(pk): 0 if n < m // 2 else 1, "random": lambda n, s_=rng.randrange(1 << 30): (n * 2654435761 + s_) >> 7,
+                "by-direction": lambda n: pk[n][2][6] if n < len(pk) else 0}[how]      # (by-direction: by a bit of the source MAC, i.e. one interface per sender)
+        out.append((f"pcapng-{tag}-interfaces-{how}", ns.pcapng_multi(pk, ifs, pick, le=le, obsolete_pb=rng.random() < 0.3), False))
+        out.append((f"pcapng-{tag}-interfaces-described-late", ns.pcapng_multi(pk, ifs, pick, le=le, late_idb=True), False))
+        out.append((f"pcapng-{tag}-sections", ns.pcapng_multi(pk, ifs if rng.random() < 0.7 else ifs[:1], pick, le=le, sections=rng.choice([2, 3]), late_idb=rng.random() < 0.3), False))
         out.append((f"pcap-legacy-{tag}-us", ns.pcap_legacy(pk, le=le), True))
         out.append((f"pcap-legacy-{tag}-ns", ns.pcap_legacy(pk, le=le, nano=True), True))
     return out
@@ -94,9 +105,9 @@ def build(tier, seed):
         return eval_case(case, random.Random(engine.subseed("C12", seed, case["id"])), thorough)
 
     return dict(cases=cases, evalfn=evalfn, level="exploration", min_nontrivial=25,
-                rule="per scene (1-3 TLS/QUIC connections + noise) 23-35 containers (incl. both orders of if_tsoffset/if_tsresol and unrelated SHB/IDB/EPB options) of the same packet list, timestamps on the grid all of them can represent "
+                rule="per scene (1-3 TLS/QUIC connections + noise) 29-41 containers (incl. captures of 2-3 interfaces with their own resolution and offset, described at the top or just before their first packet, files of 2-3 sections, both orders of if_tsoffset/if_tsresol and unrelated SHB/IDB/EPB options) of the same packet list, timestamps on the grid all of them can represent "
                      "(1 us / 1 ms / 1/64 s). Class = (container kind, grid, outcome); non-trivial = the baseline exported packets and the container's output was compared byte for byte",
-                assumptions=["one interface per capture; dsb-less containers take the keys from the -s file"])
+                assumptions=["every section of a file has the byte order of the first; dsb-less containers take the keys from the -s file"])
 
 
 def eval_case(case, rng, thorough):
